@@ -9,6 +9,7 @@ import lib  # noqa: E402
 # (translator script, generated file)
 GENERATORS = [
     ('gen_wsd_params', 'Wsd/Gen_Params.v'),
+    ('gen_multikey_tables', 'Multikey/Gen_Tables.v'),
 ]
 
 
